@@ -171,12 +171,25 @@ def run(index, rep, tier):
                 cfg = cfg or cfg_of(fi)
                 cn = node_of_ast(cfg, c)
                 # is there a call that may delete nodes between entry and this remove_child?
+                def may_delete(x):
+                    # reseed_at / encode_bipartitions / update_bipartitions remove nodes only through the unifurcation
+                    # suppression and the basal collapse: with both switched off by literal False they cannot
+                    if call_name(x) in ("reseed_at", "encode_bipartitions", "update_bipartitions"):
+                        su, cb = get_kwarg(x, "suppress_unifurcations"), get_kwarg(x, "collapse_unrooted_basal_bifurcation")
+                        if su is not None and cb is not None and const_value(su, None) is False and const_value(cb, None) is False:
+                            return False
+                    return True
                 deleters = [n for n in cfg.nodes if any(call_name(x) in ("reseed_at", "suppress_unifurcations", "collapse_basal_bifurcation", "encode_bipartitions", "update_bipartitions")
-                                                       and isinstance(x.func, ast.Attribute) and norm(x.func.value) == "self" for x in node_calls(n))]
+                                                       and isinstance(x.func, ast.Attribute) and norm(x.func.value) == "self" and may_delete(x) for x in node_calls(n))]
                 before = [d for d in deleters if cfg.can_reach(d, lambda n: n is cn) is not None]
+                restruct = [n for n in cfg.nodes if any(call_name(x) in ("reseed_at", "suppress_unifurcations", "collapse_basal_bifurcation", "encode_bipartitions", "update_bipartitions")
+                                                       and isinstance(x.func, ast.Attribute) and norm(x.func.value) == "self" for x in node_calls(n)) and cfg.can_reach(n, lambda m: m is cn) is not None]
+                if restruct:
+                    nstale += 1
                 if not before:
+                    if restruct:
+                        rep.ob("R03.5", fn_where(fi, c), "%s: `%s` follows only restructuring calls that cannot remove a node (suppression and basal collapse switched off)" % (fi.name, norm(c)), True)
                     continue
-                nstale += 1
 
                 def membership(n, c=c):
                     if n.kind == "test" and arg in names_in(n.ast) and any(isinstance(x, ast.Compare) and type(x.ops[0]).__name__ in ("In", "NotIn", "Is", "IsNot") for x in ast.walk(n.ast)):
